@@ -350,10 +350,22 @@ def main():
                                 "broken": "correspondence between lean/AJ/Model and the implementation (suite %s)" % s.name,
                                 "theorems_no_longer_tied": theorems}))
     if proof_broken and not violations:
-        violations.append(("proof", "proof obligations no longer check: " + "; ".join(proof_broken),
-                           {"no_failing_input": True, "broken": proof_broken, "log": (outp or "")[-3000:]}))
+        rep = {"no_failing_input": True, "broken": proof_broken, "log": (outp or "")[-3000:]}
+        try:
+            changed = fingerprint.table_rows_changed()
+        except Exception:
+            changed = []
+        if changed:
+            # a table theorem compares the model with rows obtained by calling the library: the rows that changed are concrete inputs on which the library answers differently now
+            rep["generated_table_rows_that_changed"] = changed
+        violations.append(("proof", "proof obligations no longer check: " + "; ".join(proof_broken), rep))
     elif proof_broken:
         notes.append("proof obligations no longer check: " + "; ".join(proof_broken))
+        try:
+            for r_ in fingerprint.table_rows_changed(3):
+                notes.append("generated table %s, row %d: was %s, the library now gives %s" % (r_["table"], r_["row"], r_["baseline"][:120], r_["now"][:120]))
+        except Exception:
+            pass
     finish()
 
 
